@@ -175,3 +175,26 @@ def run(ctx):
                 drive_rule(ctx, c, body, R_DRIVE)
     if not found:
         ctx.anchor_missing(R_DRIVE, "impl Future for SendPush")
+    # the item handed to start_send is moved onward on every path
+    R_LIN = ctx.rule("C12.linear", "the item parameter of start_send (and every item bound from an upstream result inside the combinator) is moved onward on every "
+                     "path: to a downstream, a user closure, or a buffer; intentional discards are table entries", floor=24)
+    from p_C11 import linear_rule
+    linear_rule(ctx, c, R_LIN, item_groups(c, push_impls), "C12")
+
+
+def item_groups(c, impls):
+    groups = []
+    for imp in impls:
+        b = c.impl_method(imp, "start_send")
+        if b is None:
+            continue
+        names = b.var_names()
+        params = tuple(l for l in range(2, b.argc + 1) if names.get(l) == "item" or (names.get(l) is None and l == 2))
+        bodies = [(b, params)]
+        for nm in ("poll_ready", "poll_finalize", "poll_flush", "poll_close"):
+            ob = c.impl_method(imp, nm)
+            if ob is not None:
+                bodies.append(ob)
+        bodies += c.closures_of(b.def_path)
+        groups.append(("%s|%s" % (c.name, fn_key(c, b)), bodies))
+    return groups
